@@ -277,6 +277,15 @@ class Ctx:
         self.infra_error = None
 
     # ---- bookkeeping
+    def aged(self, cls, values, dt, **kw):
+        """a signal object holding (values, dt) that got there through a history (gen.aged_signal); the kind is counted in the input
+        distribution and attached to every failure recorded afterwards (facts.last_object_history)"""
+        import gen
+        kind, obj = gen.aged_signal(self.rng, cls, values, dt, **kw)
+        self.hist('object-history/' + kind)
+        self.last_object_history = kind
+        return obj
+
     def hist(self, key, n=1):
         self.dist[key] = self.dist.get(key, 0) + n
 
@@ -327,11 +336,30 @@ class Ctx:
         """a clause of the property evaluated directly on an impl execution"""
         self.oracle_count[clause] = self.oracle_count.get(clause, 0) + 1
         if not ok:
+            f = {'clause': clause, 'inputs': jsonable(inputs), 'detail': jsonable(detail), 'facts': jsonable(facts or {})}
+            if getattr(self, 'last_object_history', None) not in (None, 'fresh'):
+                f['last_object_history'] = self.last_object_history
+            # failures explained by an open known finding are kept apart (and do not use up the per-clause budget below, so that a
+            # different violation of the same clause is never crowded out by the known one)
+            kf = getattr(self, 'known_filter', None)
+            hit = None
+            if kf is not None:
+                try:
+                    hit = kf(f)
+                except Exception:
+                    hit = None
+            if hit is not None:
+                f['known'] = hit
+                self.known_hits = getattr(self, 'known_hits', [])
+                self.known_count = getattr(self, 'known_count', {})
+                self.known_count[hit] = self.known_count.get(hit, 0) + 1
+                if self.known_count[hit] <= 5000:
+                    self.known_hits.append(f)
+                return
             self.fail_per_clause = getattr(self, 'fail_per_clause', {})
             self.fail_per_clause[clause] = self.fail_per_clause.get(clause, 0) + 1
             if self.fail_per_clause[clause] <= 40:
-                self.oracle_failures.append({'clause': clause, 'inputs': jsonable(inputs), 'detail': jsonable(detail),
-                                             'facts': jsonable(facts or {})})
+                self.oracle_failures.append(f)
             else:
                 self.hist('oracle_failures_dropped')
 
